@@ -343,6 +343,8 @@ class TS:
                 new = mem
                 for widx, wp in writes.get(idx, []):
                     addr0 = self.val(wp.addr)
+                    if addr0 is None:                          # zero-width address (depth-1 memory): always row 0
+                        addr0 = z3.BitVecVal(0, 1)
                     addr = z3.ZeroExt(aw - addr0.size(), addr0) if addr0.size() < aw else \
                         (z3.Extract(aw - 1, 0, addr0) if addr0.size() > aw else addr0)
                     data = self.val(wp.data)
